@@ -10,6 +10,8 @@ import pulsarbat as pb
 
 from .. import exact, gen, probes, monitors, oracles
 
+from ..replay import wl_R
+
 RULE = ("(a) time_delay / sample_delay probes: DM of either sign over 1e-3..1e3 (units pc/cm^3, pc/m^3, kpc/cm^3, 1/cm^2 equivalents), "
         "frequencies 1e7..1e11 Hz scalar and arrays in Hz/kHz/MHz/GHz, reference incl. infinity; compared with the exact rational law, "
         "antisymmetry and chain additivity. (b) incoherent_dedispersion on coded data (value = time index*1024 + flat sample index): "
@@ -330,9 +332,15 @@ def wl_incoherent(ctx, idx, rng):
         ctx.call("incoherent", pb.incoherent_dedispersion, other, dm, expect=TypeError, where="incoherent_dedispersion(Signal)")
 
 
+def install_universal(ctx):
+    DelayMonitor(ctx).install()
+    IncoherentMonitor(ctx).install()
+    return probes.detach_all
+
+
 def workloads(ctx):
     q = ctx.tier == "quick"
-    return [("delays", 1500 if q else 20000, wl_delays), ("incoherent", 6000 if q else 60000, wl_incoherent)]
+    return [("R", 1, wl_R), ("delays", 1500 if q else 20000, wl_delays), ("incoherent", 6000 if q else 60000, wl_incoherent)]
 
 
 def setup(ctx):
